@@ -1797,19 +1797,36 @@ impl PartialOrd for Relation {
         let self_version = self.version();
         let other_version = other.version();
 
-        match (self_version, other_version) {
+        let version_cmp = match (&self_version, &other_version) {
             (Some((self_vc, self_version)), Some((other_vc, other_version))) => {
-                let vc_cmp = self_vc.cmp(&other_vc);
+                let vc_cmp = self_vc.cmp(other_vc);
                 if vc_cmp != std::cmp::Ordering::Equal {
                     return Some(vc_cmp);
                 }
 
-                Some(self_version.cmp(&other_version))
+                self_version.cmp(other_version)
             }
-            (Some(_), None) => Some(std::cmp::Ordering::Greater),
-            (None, Some(_)) => Some(std::cmp::Ordering::Less),
-            (None, None) => Some(std::cmp::Ordering::Equal),
+            (Some(_), None) => std::cmp::Ordering::Greater,
+            (None, Some(_)) => std::cmp::Ordering::Less,
+            (None, None) => std::cmp::Ordering::Equal,
+        };
+        if version_cmp != std::cmp::Ordering::Equal {
+            return Some(version_cmp);
         }
+
+        // Break ties on the remaining parts, so that sorting does not depend
+        // on the order in which otherwise similar relations were written
+        let rest = |r: &Relation| {
+            (
+                r.archqual(),
+                r.architectures().map(|a| a.collect::<Vec<_>>()),
+                r.profiles()
+                    .map(|g| g.iter().map(|p| p.to_string()).collect::<Vec<_>>())
+                    .collect::<Vec<_>>(),
+                r.version().map(|(_, v)| v.to_string()),
+            )
+        };
+        Some(rest(self).cmp(&rest(other)))
     }
 }
 
